@@ -156,3 +156,31 @@ pub fn is_literal_expr(e: &Expr) -> bool {
         _ => false,
     }
 }
+
+/// applies `f` to every expression that is a direct child of the statement (not to nested blocks)
+pub fn map_stat_top(s: &mut Stat, f: &mut dyn FnMut(&mut Expr)) {
+    match s {
+        Stat::Local { exprs, .. } => exprs.iter_mut().for_each(|e| f(e)),
+        Stat::Assign { targets, exprs } => {
+            targets.iter_mut().for_each(|e| f(e));
+            exprs.iter_mut().for_each(|e| f(e));
+        }
+        Stat::CompoundAssign { target, expr, .. } => {
+            f(target);
+            f(expr);
+        }
+        Stat::Call(e) => f(e),
+        Stat::While(c, _) | Stat::Repeat(_, c) => f(c),
+        Stat::If(branches, _) => branches.iter_mut().for_each(|(c, _)| f(c)),
+        Stat::NumFor { start, end, step, .. } => {
+            f(start);
+            f(end);
+            if let Some(s) = step {
+                f(s);
+            }
+        }
+        Stat::GenFor { exprs, .. } => exprs.iter_mut().for_each(|e| f(e)),
+        Stat::Return(exprs) => exprs.iter_mut().for_each(|e| f(e)),
+        Stat::Do(_) | Stat::Function { .. } | Stat::LocalFunction { .. } | Stat::TypeFunction { .. } | Stat::Break | Stat::Continue | Stat::TypeDecl { .. } => {}
+    }
+}
